@@ -2,22 +2,32 @@ import RegressModel.Basic
 /-!
 # `pattern_impl::RegexSearcher` (`src/api.rs`, feature `pattern`)
 
-The regex and haystack are abstracted into a `SearchCtx`:
-* `findFrom pos`  = the range of `regex.find_from(haystack, pos).next()`,
-* `allMatches`    = the ranges of `regex.find_from(haystack, 0)` drained,
-* `isBoundary`    = `haystack.is_char_boundary`,
-* `len`           = `haystack.len()`.
+Model of the searcher as rewritten in commit "fix: make the Pattern searcher's steps tile the
+haystack". (The model of the previous, defective code and its counterexamples are kept in
+`Proofs/Lemmas/Regressions.lean`.)
 
-`Regex::find_from` starts with
-`assert!(start >= text.len() || text.is_char_boundary(start))`; that panic is `Except.error ()`.
+The regex and haystack are abstracted into a `SearchCtx`:
+* `len`            = `haystack.len()`,
+* `findFrom pos`   = the range of `regex.find_from(haystack, pos).next()`,
+* `isBoundary`     = `haystack.is_char_boundary`,
+* `nextBoundary e` = `haystack[e..].chars().next().map(|c| e + c.len_utf8())`
+                     (`none` when there is no char at `e`, i.e. at the end).
+
+Panic sites are explicit `SearchError`s:
+* `Regex::find_from` starts with `assert!(start >= text.len() || text.is_char_boundary(start))`;
+* `self.haystack[m.end()..]` panics unless `m.end()` is a char boundary of the haystack
+  (which includes `m.end() <= len`);
+* `steps[*front - 1]` is a checked `Vec` index.
+The unbounded `loop` of `next_back` gets a fuel argument (`outOfFuel` is a model artefact; C20 proves
+that the fuel used by `nextBack` always suffices).
 -/
 namespace Regress.Api
 
 structure SearchCtx where
   len : Nat
   findFrom : Nat → Option (Nat × Nat)
-  allMatches : List (Nat × Nat)
   isBoundary : Nat → Bool
+  nextBoundary : Nat → Option Nat
 
 /-- `core::str::pattern::SearchStep`. -/
 inductive SearchStep where
@@ -26,89 +36,121 @@ inductive SearchStep where
   | done
 deriving Repr, DecidableEq
 
-/-- `RegexSearcher` (without the borrowed `haystack` / `regex`). -/
+inductive SearchError where
+  /-- the `assert!` of `Regex::find_from` -/
+  | findFromAssert
+  /-- `haystack[m.end()..]` not on a char boundary -/
+  | sliceBoundary
+  /-- `steps[*front - 1]` out of bounds -/
+  | indexOutOfBounds
+  /-- model artefact: fuel of the `loop` in `next_back` exhausted -/
+  | outOfFuel
+deriving Repr, DecidableEq
+
+/-- `RegexSearcher` (without the borrowed `haystack` / `regex`).
+`remaining` is the `Option<(Vec<SearchStep>, usize)>`: the vector as a list in index order. -/
 structure RegexSearcher where
-  currentPos : Nat
-  done : Bool
-  reversePos : Nat
-  reverseDone : Bool
+  reportedPos : Nat
+  searchPos : Option Nat
+  remaining : Option (List SearchStep × Nat)
 deriving Repr, DecidableEq
 
 /-- `RegexSearcher::new`. -/
-def RegexSearcher.new (ctx : SearchCtx) : RegexSearcher :=
-  { currentPos := 0, done := false, reversePos := ctx.len, reverseDone := false }
+def RegexSearcher.new : RegexSearcher :=
+  { reportedPos := 0, searchPos := some 0, remaining := none }
 
 /-- `regex.find_from(haystack, pos).next()` including the assertion of `find_from`. -/
-def SearchCtx.findFromChecked (ctx : SearchCtx) (pos : Nat) : Except Unit (Option (Nat × Nat)) :=
-  if pos ≥ ctx.len || ctx.isBoundary pos then .ok (ctx.findFrom pos) else .error ()
+def SearchCtx.findFromChecked (ctx : SearchCtx) (pos : Nat) :
+    Except SearchError (Option (Nat × Nat)) :=
+  if pos ≥ ctx.len || ctx.isBoundary pos then .ok (ctx.findFrom pos) else .error .findFromAssert
 
-/-- `while next_pos < len && !is_char_boundary(next_pos) { next_pos += 1 }` (fuel ≥ `len - next_pos`). -/
-def advanceToBoundary (ctx : SearchCtx) : Nat → Nat → Nat
-  | 0, nextPos => nextPos
-  | fuel + 1, nextPos =>
-    if nextPos < ctx.len && !ctx.isBoundary nextPos then advanceToBoundary ctx fuel (nextPos + 1)
-    else nextPos
+/-- `self.haystack[e..].chars().next().map(|c| e + c.len_utf8())` including the slicing check. -/
+def SearchCtx.sliceCharsNext (ctx : SearchCtx) (e : Nat) : Except SearchError (Option Nat) :=
+  if e ≤ ctx.len && ctx.isBoundary e then .ok (ctx.nextBoundary e) else .error .sliceBoundary
 
-/-- `while prev_pos > 0 && !is_char_boundary(prev_pos) { prev_pos -= 1 }`. -/
-def retreatToBoundary (ctx : SearchCtx) : Nat → Nat
-  | 0 => 0
-  | p + 1 => if !ctx.isBoundary (p + 1) then retreatToBoundary ctx p else p + 1
+/-- `RegexSearcher::forward_step`. -/
+def RegexSearcher.forwardStep (ctx : SearchCtx) (s : RegexSearcher) :
+    Except SearchError (SearchStep × RegexSearcher) :=
+  -- let next_match = self.search_pos.and_then(|pos| self.regex.find_from(self.haystack, pos).next());
+  let nextMatch : Except SearchError (Option (Nat × Nat)) :=
+    match s.searchPos with
+    | none => .ok none
+    | some pos => ctx.findFromChecked pos
+  match nextMatch with
+  | .error err => .error err
+  | .ok none =>
+    -- No more matches: reject the remaining text, if any.
+    let s := { s with searchPos := none }
+    if s.reportedPos < ctx.len then
+      .ok (.reject s.reportedPos ctx.len, { s with reportedPos := ctx.len })
+    else .ok (.done, s)
+  | .ok (some (mStart, mEnd)) =>
+    -- Report the gap before the match first; the match itself is found again by the next call.
+    if s.reportedPos < mStart then
+      .ok (.reject s.reportedPos mStart, { s with reportedPos := mStart, searchPos := some mStart })
+    else if mStart != mEnd then
+      .ok (.match mStart mEnd, { s with reportedPos := mEnd, searchPos := some mEnd })
+    else
+      match ctx.sliceCharsNext mEnd with
+      | .error err => .error err
+      | .ok sp => .ok (.match mStart mEnd, { s with reportedPos := mEnd, searchPos := sp })
 
 /-- `Searcher::next`. -/
 def RegexSearcher.next (ctx : SearchCtx) (s : RegexSearcher) :
-    Except Unit (SearchStep × RegexSearcher) :=
-  if s.done then .ok (.done, s)
-  else
-    match ctx.findFromChecked s.currentPos with
-    | .error () => .error ()
-    | .ok (some (matchStart, matchEnd)) =>
-      if s.currentPos < matchStart then
-        .ok (.reject s.currentPos matchStart, { s with currentPos := matchStart })
-      else
-        -- self.current_pos = match_end;
-        let s := { s with currentPos := matchEnd }
-        let s :=
-          if matchStart == matchEnd then
-            if matchEnd < ctx.len then
-              { s with currentPos := advanceToBoundary ctx (ctx.len - (matchEnd + 1)) (matchEnd + 1) }
-            else { s with done := true }
-          else s
-        .ok (.match matchStart matchEnd, s)
-    | .ok none =>
-      if s.currentPos < ctx.len then
-        .ok (.reject s.currentPos ctx.len, { s with currentPos := ctx.len, done := true })
-      else .ok (.done, { s with done := true })
+    Except SearchError (SearchStep × RegexSearcher) :=
+  match s.remaining with
+  | none => s.forwardStep ctx
+  | some (steps, front) =>
+    if front < steps.length then
+      -- *front += 1; steps[*front - 1]
+      match steps[front + 1 - 1]? with
+      | some st => .ok (st, { s with remaining := some (steps, front + 1) })
+      | none => .error .indexOutOfBounds
+    else .ok (.done, s)
 
-/-- The loop of `find_last_match_before`. -/
-def findLastLoop (pos : Nat) : Option (Nat × Nat) → List (Nat × Nat) → Option (Nat × Nat)
-  | last, [] => last
-  | last, m :: ms => if m.2 ≤ pos then findLastLoop pos (some m) ms else last
+/-- The `loop { match self.forward_step() { Done => break, step => steps.push(step) } }` of
+`next_back`, with fuel. -/
+def collectLoop (ctx : SearchCtx) :
+    Nat → RegexSearcher → List SearchStep → Except SearchError (List SearchStep × RegexSearcher)
+  | 0, _, _ => .error .outOfFuel
+  | fuel + 1, s, steps =>
+    match s.forwardStep ctx with
+    | .error err => .error err
+    | .ok (st, s') =>
+      if st = .done then .ok (steps, s') else collectLoop ctx fuel s' (steps ++ [st])
 
-/-- `RegexSearcher::find_last_match_before` (`find_from(haystack, 0)` cannot panic). -/
-def SearchCtx.findLastMatchBefore (ctx : SearchCtx) (pos : Nat) : Option (Nat × Nat) :=
-  findLastLoop pos none ctx.allMatches
+/-- The `if self.remaining.is_none() { … }` block of `next_back`. -/
+def RegexSearcher.fillRemaining (ctx : SearchCtx) (fuel : Nat) (s : RegexSearcher) :
+    Except SearchError RegexSearcher :=
+  match s.remaining with
+  | some _ => .ok s
+  | none =>
+    match collectLoop ctx fuel s [] with
+    | .error err => .error err
+    | .ok (steps, s') => .ok { s' with remaining := some (steps, 0) }
 
-/-- `ReverseSearcher::next_back`. -/
-def RegexSearcher.nextBack (ctx : SearchCtx) (s : RegexSearcher) : SearchStep × RegexSearcher :=
-  if s.reverseDone then (.done, s)
-  else
-    match ctx.findLastMatchBefore s.reversePos with
-    | some (matchStart, matchEnd) =>
-      if matchEnd < s.reversePos then
-        (.reject matchEnd s.reversePos, { s with reversePos := matchEnd })
-      else
-        let s := { s with reversePos := matchStart }
-        let s :=
-          if matchStart == matchEnd then
-            if matchStart > 0 then
-              { s with reversePos := retreatToBoundary ctx (matchStart - 1) }
-            else { s with reverseDone := true }
-          else s
-        (.match matchStart matchEnd, s)
-    | none =>
-      if s.reversePos > 0 then
-        (.reject 0 s.reversePos, { s with reversePos := 0, reverseDone := true })
-      else (.done, { s with reverseDone := true })
+/-- `ReverseSearcher::next_back`, with the fuel for its loop. -/
+def RegexSearcher.nextBackFuel (ctx : SearchCtx) (fuel : Nat) (s : RegexSearcher) :
+    Except SearchError (SearchStep × RegexSearcher) :=
+  match s.fillRemaining ctx fuel with
+  | .error err => .error err
+  | .ok s =>
+    match s.remaining with
+    | some (steps, front) =>
+      if front < steps.length then
+        -- steps.pop().unwrap_or(SearchStep::Done)
+        .ok (steps.getLast?.getD .done, { s with remaining := some (steps.dropLast, front) })
+      else .ok (.done, s)
+    | none => .ok (.done, s)
+
+/-- `ReverseSearcher::next_back`. The loop makes at most `2 * len + 2` calls of `forward_step`
+(`Proofs/Lemmas/Searcher.lean`: `collectLoop_of_run`, `run_exists`; more fuel does not change the result:
+`collectLoop_fuel_mono`). -/
+def RegexSearcher.nextBack (ctx : SearchCtx) (s : RegexSearcher) :
+    Except SearchError (SearchStep × RegexSearcher) :=
+  s.nextBackFuel ctx (2 * ctx.len + 2)
+
+/-! ## Drivers -/
 
 /-- Call `next()` until it returns `Done` (not included), at most `fuel` times.
 `none` = a panic or fuel exhausted. -/
@@ -116,37 +158,113 @@ def forwardStepsFuel (ctx : SearchCtx) : Nat → RegexSearcher → Option (List 
   | 0, _ => none
   | fuel + 1, s =>
     match s.next ctx with
-    | .error () => none
-    | .ok (.done, _) => some []
-    | .ok (step, s') =>
-      match forwardStepsFuel ctx fuel s' with
-      | none => none
-      | some steps => some (step :: steps)
+    | .error _ => none
+    | .ok (st, s') =>
+      if st = .done then some []
+      else
+        match forwardStepsFuel ctx fuel s' with
+        | none => none
+        | some steps => some (st :: steps)
 
 /-- All steps of a fresh searcher driven forwards. -/
 def forwardSteps (ctx : SearchCtx) : Option (List SearchStep) :=
-  forwardStepsFuel ctx (2 * ctx.len + 4) (RegexSearcher.new ctx)
+  forwardStepsFuel ctx (2 * ctx.len + 2) RegexSearcher.new
 
 /-- Call `next_back()` until it returns `Done` (not included), at most `fuel` times. -/
 def backwardStepsFuel (ctx : SearchCtx) : Nat → RegexSearcher → Option (List SearchStep)
   | 0, _ => none
   | fuel + 1, s =>
     match s.nextBack ctx with
-    | (.done, _) => some []
-    | (step, s') =>
-      match backwardStepsFuel ctx fuel s' with
-      | none => none
-      | some steps => some (step :: steps)
+    | .error _ => none
+    | .ok (st, s') =>
+      if st = .done then some []
+      else
+        match backwardStepsFuel ctx fuel s' with
+        | none => none
+        | some steps => some (st :: steps)
 
 /-- All steps of a fresh searcher driven backwards. -/
 def backwardSteps (ctx : SearchCtx) : Option (List SearchStep) :=
-  backwardStepsFuel ctx (2 * ctx.len + 4) (RegexSearcher.new ctx)
+  backwardStepsFuel ctx (2 * ctx.len + 2) RegexSearcher.new
 
-/-- The first match starting at or after `pos` in a list of match ranges that is sorted by start;
-used to build a `findFrom` from a concrete match list. NOTE: this is only the behaviour of
-`find_from(h, pos).next()` when restarting the search at `pos` finds one of the matches of the
-scan from 0 (true e.g. for patterns without lookbehind whose matches from 0 are the leftmost ones). -/
+/-- The observable outcome of a sequence of `next` / `next_back` calls on one searcher. -/
+structure RunResult where
+  /-- the non-`Done` steps returned by `next`, in call order -/
+  fronts : List SearchStep
+  /-- the non-`Done` steps returned by `next_back`, in call order -/
+  backs : List SearchStep
+  /-- `next` has returned `Done` -/
+  frontDone : Bool
+  /-- `next_back` has returned `Done` -/
+  backDone : Bool
+  state : RegexSearcher
+deriving Repr, DecidableEq
+
+/-- Has the run reached its end: both directions have returned `Done`. -/
+def RunResult.finished (r : RunResult) : Bool := r.frontDone && r.backDone
+
+/-- One call (`true` = `next`, `false` = `next_back`) and its bookkeeping: a `Done` sets the flag of its
+direction, any other step is appended to `fronts` / `backs` — also if it comes after the `Done` of the
+same direction. -/
+def RunResult.call (ctx : SearchCtx) (r : RunResult) (op : Bool) : Except SearchError RunResult :=
+  if op then
+    match r.state.next ctx with
+    | .error err => .error err
+    | .ok (st, s') =>
+      if st = .done then .ok { r with frontDone := true, state := s' }
+      else .ok { r with fronts := r.fronts ++ [st], state := s' }
+  else
+    match r.state.nextBack ctx with
+    | .error err => .error err
+    | .ok (st, s') =>
+      if st = .done then .ok { r with backDone := true, state := s' }
+      else .ok { r with backs := r.backs ++ [st], state := s' }
+
+/-- Perform the calls `ops` in order, stopping as soon as both directions have returned `Done`. The
+schedule is the fuel: `RunResult.finished` tells whether it was long enough (C20
+`interleaved_finishes`: it is as soon as both directions are called once more after the first
+`2 * len + 1` calls). -/
+def runOpsFrom (ctx : SearchCtx) : List Bool → RunResult → Except SearchError RunResult
+  | [], r => .ok r
+  | op :: ops, r =>
+    if r.finished then .ok r
+    else
+      match r.call ctx op with
+      | .error err => .error err
+      | .ok r' => runOpsFrom ctx ops r'
+
+def RunResult.init : RunResult :=
+  { fronts := [], backs := [], frontDone := false, backDone := false, state := RegexSearcher.new }
+
+/-- An interleaving of calls on a fresh searcher. -/
+def runOps (ctx : SearchCtx) (ops : List Bool) : Except SearchError RunResult :=
+  runOpsFrom ctx ops RunResult.init
+
+/-- The raw steps returned by the calls `ops` (all of them, `Done`s included). -/
+def callSteps (ctx : SearchCtx) : List Bool → RegexSearcher → Except SearchError (List SearchStep)
+  | [], _ => .ok []
+  | op :: ops, s =>
+    match (if op then s.next ctx else s.nextBack ctx) with
+    | .error err => .error err
+    | .ok (st, s') =>
+      match callSteps ctx ops s' with
+      | .error err => .error err
+      | .ok l => .ok (st :: l)
+
+/-! ## Building a context from concrete data (for examples and tests) -/
+
+/-- The first match starting at or after `pos` in a list of match ranges sorted by start.
+NOTE: this is the behaviour of `find_from(h, pos).next()` only when restarting the search at `pos`
+finds one of the matches of the scan from 0 and `pos` is not inside such a match. -/
 def firstAtOrAfter (ms : List (Nat × Nat)) (pos : Nat) : Option (Nat × Nat) :=
   ms.find? (fun m => pos ≤ m.1)
+
+/-- A context from the haystack length, its char boundaries (sorted, including 0 and `len`) and the
+matches of `find_iter`. -/
+def SearchCtx.ofMatches (len : Nat) (bounds : List Nat) (ms : List (Nat × Nat)) : SearchCtx :=
+  { len := len
+    findFrom := firstAtOrAfter ms
+    isBoundary := fun p => bounds.contains p
+    nextBoundary := fun e => bounds.find? (fun q => e < q) }
 
 end Regress.Api
